@@ -81,6 +81,17 @@ def as_iter(ex, v, by_value=False):
         return It('list', [Tup([Cell(Ref(Cell(k))), Cell(Ref(c))]) for k, c in v.items])
     if isinstance(v, Adt) and v.ty == 'Option':
         return It('list', [ex.payload(v)] if v.discr == 1 else [])
+    if type(v).__name__ == 'HMap':
+        # http::HeaderMap's owning iterator: grouped by name, the name only alongside the first value of each name
+        items, order = [], []
+        for n, _ in v.entries:
+            if n not in order: order.append(n)
+        for n in order:
+            first = True
+            for k, val in v.entries:
+                if k == n:
+                    items.append(Tup([Cell(ex.some(n) if first else ex.none()), Cell(val)])); first = False
+        return It('list', items)
     raise Unsupported('as_iter of ' + repr(v))
 
 
